@@ -74,6 +74,32 @@ def check_arch(ctx, dump, arch, rid_prefix="C07", returns=False):
     return n_fn
 
 
+def _fixed_in(tree, regs):
+    out = []
+    for c in ast.walk(tree):
+        if isinstance(c, ast.ClassDef):
+            for f in c.body:
+                if isinstance(f, ast.FunctionDef) and f.name in ("encode", "set_user_patterns"):
+                    for n in ast.walk(f):
+                        if isinstance(n, ast.Name) and isinstance(n.ctx, ast.Load) and n.id in regs:
+                            out.append((c.name, f.name, n))
+    return out
+
+
+def fixed_registers_in_encoders(project):
+    n_enc, hits = 0, []
+    for rel, m in sorted(project.modules.items()):
+        if not rel.startswith("ppci/arch/"):
+            continue
+        regs = {k for k, v in m.imports.items() if v[0] == "name" and v[1].endswith("registers") and k[0].islower()}
+        for c in ast.walk(m.tree):
+            if isinstance(c, ast.ClassDef):
+                n_enc += sum(1 for f in c.body if isinstance(f, ast.FunctionDef) and f.name in ("encode", "set_user_patterns"))
+        for cname, fname, node in _fixed_in(m.tree, regs):
+            hits.append((rel, cname, fname, node))
+    return n_enc, hits
+
+
 # instruction syntax literals that name a register the instruction reads implicitly: arch -> literal -> the fixed registers (all widths) that alias it
 IMPLICIT_REG = {"x86_64": {"cl": ("rcx", "ecx", "cx", "cl")}}
 
@@ -172,6 +198,15 @@ def run(ctx):
     for arch in archs:
         total += check_arch(ctx, dump, arch)
     ctx.extra["pattern_functions_analysed"] = total
+    ctx.rule("C07.R4", "an encoder (encode / set_user_patterns) takes register numbers only from its own declared operands, never from a fixed physical register: the encoded register is the one liveness was told about", floor=2)
+    n_enc, hits = fixed_registers_in_encoders(ctx.project)
+    ctx.need(n_enc >= 120, "encoder functions not enumerated (%d)" % n_enc)
+    ctl = ast.parse("class K:\n    def set_user_patterns(self, tokens):\n        Other(rbp, 0).set_user_patterns(tokens)\n")
+    ctx.need(len(_fixed_in(ctl, {"rbp"})) == 1, "C07.R4 positive control lost")
+    ctx.ob("C07.R4", "ppci/arch/*", "encoder functions scanned for physical register constants: %d" % n_enc, True, construct="scan-encoders")
+    for rel, cname, fname, node in hits:
+        ctx.ob("C07.R4", "%s:%s.%s" % (rel, cname, fname), "the encoder does not name the physical register `%s`" % node.id, False, construct="fixed-register:%s.%s:%s" % (cname, fname, node.id), node=node)
+    ctx.ob("C07.R4", "ppci/arch/*", "no encoder names a physical register", not hits, construct="no-fixed-register")
     ctx.rule("C07.R3", "an undeclared (implicit) fixed-register operand is loaded immediately before the instruction that reads it", floor=20)
     ctx.extra["implicit_operand_sites"] = implicit_operand_windows(ctx, dump, "x86_64", "C07.R3")
     # R2: flag sanity + sibling vectors
